@@ -318,7 +318,7 @@ def run_part(ctx):
             ctx.add_violations([dict(v, key=v["key"] + ":default-schedule") for v in v0])
             ctx.log(f"T2 {name}: default schedule already violates: {v0[0]['key']} {str(v0[0]['observed'])[:200]}")
             continue
-        viols, st = pysched.explore(_body, _check, traced, bound, ctx, setup=_setup, max_execs_per_shard=ctx.pick(600, 60000), max_steps=60000, budget_s=ctx.pick(60, 50))
+        viols, st = pysched.explore(_body, _check, traced, bound, ctx, setup=_setup, max_execs_per_shard=ctx.pick(600, 60000), max_steps=60000, budget_s=ctx.pick(45, 150))
         ctx.add_violations(viols)
         total["executions"] += st.executions
         total["steps"] += st.steps
